@@ -356,7 +356,7 @@ func runC09(ctx *core.Ctx, pool *par.Pool) {
 	ctx.SetBudget(100 * time.Second)
 	if !ctx.Quick() {
 		small, large = 3, 2
-		ctx.SetBudget(28 * time.Minute)
+		ctx.SetBudget(15 * time.Minute)
 	}
 	ps, names := lockScenarios(ctx.Quick())
 	bounds := func(i int) explore.Bounds {
